@@ -183,8 +183,39 @@ def run(ctx):
                                           dict(name=hx(name), driver=driver, plan=f'{when} {k}', after=show(after), init=show(init)),
                                           f'C09: killed {when[4:]} mutating call {k}: old content lost or a backup modified')
         ctx.count('kill_points', kp)
+        # --- the rename that makes the backup FAILS (a name too long for `.~N~`, a sticky directory, a transient error): the
+        # old version must survive — either the run stops there (non-zero exit, destination untouched) or a backup holds it
+        E = scen.ERRNO
+        fp = 0
+        for name, bk, mode in ((b'f', [], 'numbered'), (b'f', [1, 2], 'auto'), (b'\xff\xfe', [4], 'numbered')):
+            for driver in ('parfile', 'parblock'):
+                init = {name: b'OLD-CONTENT'}
+                for n in bk:
+                    init[name + b'.~%d~' % n] = b'bk%d' % n
+                setup(root, init); put_source(root, name, b'NEW-CONTENT-LONGER')
+                r0 = scen.run_xcp(root, ['-r', '-T', f'--backup={mode}', '--driver', driver, 'S', 'D'], trace=True)
+                rn = [e['sys'] for e in r0.trace if e['sys'].startswith('rename') and e['ret'] == 0]
+                if not rn:
+                    ctx.violation(f'rename-missing-{hx(name)}-{driver}.json', dict(name=hx(name), driver=driver, mode=mode), 'no rename seen in an overwrite with backup', no_input=True)
+                    continue
+                for en in ('EIO', 'EPERM', 'ENAMETOOLONG', 'ENOSPC') if not ctx.quick or driver == 'parfile' else ('EIO', 'ENAMETOOLONG'):
+                    setup(root, init); put_source(root, name, b'NEW-CONTENT-LONGER')
+                    plan = [f'fail {rn[0]} * 1 {E[en]}']
+                    r = scen.run_xcp(root, ['-r', '-T', f'--backup={mode}', '--driver', driver, 'S', 'D'], plan=plan, trace=True)
+                    after = listing(root + '/D')
+                    fired = any(e.get('inj') for e in r.trace)
+                    fp += 1
+                    ctx.case(('rename-fault', name, driver, mode, en), fired)
+                    ctx.count(f'rename_fault.exit.{r.cls}')
+                    kept = b'OLD-CONTENT' in after.values()
+                    others = all(after.get(kk) == v for kk, v in init.items() if kk != name)
+                    if fired and (not kept or not others):
+                        ctx.violation(f'rename-fault-{hx(name)}-{driver}-{en}.json',
+                                      dict(name=hx(name), driver=driver, mode=mode, plan=plan, exit=r.cls, after=show(after), init=show(init), stderr=r.stderr[-300:]),
+                                      f'C09: the backup rename failed ({en}) and the previous version of {name!r} exists nowhere afterwards (exit {r.cls}, {driver}, --backup={mode})')
+        ctx.count('rename_fault_points', fp)
     ctx.cov['rule'] = ('histories: 3-7 invocations over 1-3 names (prefix-related, backup-looking, non-UTF-8, long) with initial backup sets incl. gaps, '
-                       'numbers near 2^64, malformed numbers; kill before/after every mutating call of an overwrite. distinct = distinct (history, driver) or kill point; '
+                       'numbers near 2^64, malformed numbers; kill before/after every mutating call of an overwrite; the backup rename failing with EIO/EPERM/ENAMETOOLONG/ENOSPC. distinct = distinct (history, driver) or kill point; '
                        'non-trivial = at least one non-none mode')
     ctx.assumptions += ['rename(2) is atomic', 'SIGKILL leaves exactly the effects of completed calls']
 
